@@ -170,7 +170,7 @@ def xfer_traces(ctx, profiles, n_quick, n_thorough, shards=None, extra_env=None)
     return files
 
 
-def tlc_behaviours(ctx, module, cfg, num, depth, seed=None, workers=8, timeout=600):
+def tlc_behaviours(ctx, module, cfg, num, depth, seed=None, workers=8, timeout=600, cap=None):
     """Generate behaviours with `tlc -simulate`; the model prints <<"BEHAVIOUR", json>> at depth.
     Returns (path of a file with one JSON array per line, count)."""
     per = max(1, num // workers)
@@ -180,14 +180,24 @@ def tlc_behaviours(ctx, module, cfg, num, depth, seed=None, workers=8, timeout=6
         raise L.MachineryError("behaviour generation %s/%s failed:\n%s" % (module, cfg, "\n".join(r["out"].splitlines()[-30:])))
     path = os.path.join(r["wd"], "behaviours.jsonl")
     seen = set()
+    allb = []
+    for line in r["out"].splitlines():
+        m = re.match(r'<<"BEHAVIOUR", "(.*)">>\s*$', line)
+        if m:
+            js = m.group(1).replace('\\"', '"').replace("\\\\", "\\")
+            if js not in seen:
+                seen.add(js)
+                allb.append(js)
+    if cap and len(allb) > cap:
+        # the simulator prints every successor that satisfies the emission condition, so behaviours come
+        # in clusters sharing a long prefix: keep an evenly spread subset
+        import random
+        rnd = random.Random(seed if seed is not None else ctx.seed)
+        allb = rnd.sample(allb, cap)
+        seen = set(allb)
     with open(path, "w") as f:
-        for line in r["out"].splitlines():
-            m = re.match(r'<<"BEHAVIOUR", "(.*)">>\s*$', line)
-            if m:
-                js = m.group(1).replace('\\"', '"').replace("\\\\", "\\")
-                if js not in seen:
-                    seen.add(js)
-                    f.write(js + "\n")
+        for js in allb:
+            f.write(js + "\n")
     ctx.design.append({"module": module, "cfg": cfg, "mode": "simulate", "distinct": 0, "generated": r["generated"], "behaviours": len(seen),
                        "wall_s": r["wall_s"], "ok": True, "cmd": r["cmd"]})
     if not seen:
@@ -280,19 +290,46 @@ def directed_traces(ctx, mode, shards, env=None):
     return files
 
 
+def transfer_family(ctx, design=True):
+    """Transfer.tla engine slice: exhaustive TLC (quick constants) + TLC-simulated environment schedules
+    replayed content-keyed on real associations."""
+    binp = ctx.harness()
+    if design:
+        ctx.tlc_design("MC_Transfer", "MC_Transfer_quick.cfg", timeout=900, heap="14g")
+    out = ctx.scr.mkdir("xr")
+    for shape, cfg in ((1, "MC_Transfer_sim.cfg"), (2, "MC_Transfer_sim2.cfg"), (3, "MC_Transfer_sim3.cfg")):
+        if ctx.quick and shape == 3:
+            continue
+        path, nb = tlc_behaviours(ctx, "MC_Transfer", cfg, 400 if ctx.quick else 6000, 60, seed=ctx.seed * 10 + shape,
+                                  cap=120 if ctx.quick else 3000)
+        ps = L.run_shards(binp, "xfer-replay", out, 4, {"VF_IN": path, "VF_SHAPE": shape, "VF_NSHARDS": 4})
+        for p in ps:
+            if p.returncode != 0:
+                raise L.MachineryError("xfer-replay failed: " + (p.stdout + p.stderr)[-2000:])
+        ctx.replayed += nb
+        ctx.distinct.add(("transfer-schedules", shape))
+        if len(ctx.samples) < 4:
+            ctx.samples.append({"transfer_schedule": open(path).readline()[:600]})
+    return sorted(glob.glob(os.path.join(out, "xr-*.ndjson")))
+
+
 ALL_PROFILES = ["basic", "lossy", "reorder", "zwin", "pr", "wrap", "il", "tiny", "clean"]
 
 
 @check("C01", ["C01_"])
 def c01(ctx):
-    files = xfer_traces(ctx, ["basic", "lossy", "reorder", "wrap", "il", "tiny", "zwin", "big"], 160, 4000)
+    files = transfer_family(ctx)
+    files += xfer_traces(ctx, ["basic", "lossy", "reorder", "wrap", "il", "tiny", "zwin", "big"], 160, 4000)
+    if not ctx.quick:
+        reasm_component(ctx, "C01")
     ctx.validate(files)
 
 
 @check("C05", ["C05_"])
 def c05(ctx):
     recv_component(ctx, "C05")
-    files = xfer_traces(ctx, ["lossy", "reorder", "wrap", "pr", "zwin", "basic"], 160, 4000)
+    files = transfer_family(ctx)
+    files += xfer_traces(ctx, ["lossy", "reorder", "wrap", "pr", "zwin", "basic"], 160, 4000)
     ctx.validate(files)
 
 
@@ -312,7 +349,8 @@ def c11(ctx):
 
 @check("C02", ["C02_"])
 def c02(ctx):
-    files = xfer_traces(ctx, ["zwin", "lossy", "reorder", "wrap", "basic", "il", "tiny", "zwin"], 200, 5000)
+    files = transfer_family(ctx)
+    files += xfer_traces(ctx, ["zwin", "lossy", "reorder", "wrap", "basic", "il", "tiny", "zwin"], 200, 5000)
     ctx.validate(files)
 
 
@@ -335,7 +373,8 @@ def c15(ctx):
 
 @check("C19", ["C19_"])
 def c19(ctx):
-    files = xfer_traces(ctx, ["reorder", "lossy", "basic", "clean"], 160, 4000)
+    files = transfer_family(ctx, design=False)
+    files += xfer_traces(ctx, ["reorder", "lossy", "basic", "clean"], 160, 4000)
     ctx.validate(files)
 
 
@@ -451,7 +490,8 @@ def c13(ctx):
 
 @check("C10", ["C10_"])
 def c10(ctx):
-    files = xfer_traces(ctx, ["zwin", "lossy", "basic", "tiny", "big", "il"], 160, 4000)
+    files = transfer_family(ctx)
+    files += xfer_traces(ctx, ["zwin", "lossy", "basic", "tiny", "big", "il"], 160, 4000)
     ctx.validate(files)
 
 
